@@ -368,10 +368,12 @@ def bounded(chk):
     for m in bigm[:: (7 if chk.tier == "quick" else 1)]:
         items.append({"matrix": m, "float": False, "alphas": [0.05, 0.3]})
     items.append({"matrix": bigm[::5], "float": False, "alphas": [0.05]})
+    for m in ([[3, 1], [2, 6]], [[0, 5], [7, 0]], [[40, 2], [1, 90]]):
+        items.append({"matrix": m, "float": False, "alphas": [1e-17, 1e-12, 1e-9, 1e-4]})
     frac = [0.0, 0.125, 0.3, 0.75]
     for a, b, c, d in itertools.product(frac, repeat=4):
         items.append({"matrix": [[a, b], [c, d]], "float": True, "alphas": [0.05]})
-    chk.bounded["bound"] = f"all 2x2 matrices with cells in {vals} (int and float), as single matrices and stacked with leading shapes (K,), (0,), (4,K/4), (2,2,K/4), (K/16,16), (2,K/2), (2,0,2); alphas {alphas}; both metrics.* and ConfusionMatrix.*; integer matrices with cells in {big} (int64 overflow of intermediate products) and float matrices with fractional cells {frac}"
+    chk.bounded["bound"] = f"all 2x2 matrices with cells in {vals} (int and float), as single matrices and stacked with leading shapes (K,), (0,), (4,K/4), (2,2,K/4), (K/16,16), (2,K/2), (2,0,2); alphas {alphas} and down to 1e-17; both metrics.* and ConfusionMatrix.*; integer matrices with cells in {big} (int64 overflow of intermediate products) and float matrices with fractional cells {frac}"
     chk.bounded["rule"] = "enumerated; every matrix is a distinct case; non-trivial = not all-zero"
     chk.bounded["exhaustive"] = True
     run_bounded(chk, items, eval_items)
